@@ -19,7 +19,7 @@ args, children/levels only grow by append at the tabled sites; (R07.5) the root 
 level 0, metaepoch 0, no seed, once; (R07.6) parents on the last level are refused and generators never offer them;
 (R07.7) generator candidates have provenance current_population / best_current_individual of the keyed deme (NBC: the
 clustering returns a subset of its constructor argument — checked as its own obligation); (R07.8) seeded SEA/DE/SHADE
-constructors sample pop_size - 1 individuals and append one whose genome is the seed's."""
+constructors sample pop_size - 1 individuals and append one whose genome is the seed's. (R07.9) filters only shrink a parent's candidate list, so a candidate stays under the deme that proposed it; the seeded population is not cut after the seed joined it; nothing writes into the process-wide config -> engine registry."""
 NOTE = """User-composed sprout mechanisms and custom deme classes registered through the config live outside pyhms. Filters
 only removing candidates is C10's R10.2."""
 TECHNIQUE = "def-use / argument-agreement analysis, who-may-write tables and registry exhaustiveness over the ast program model"
